@@ -12,7 +12,7 @@ func init() {
 	register(&Check{
 		ID:    "C11",
 		Level: "exploration",
-		Rule: "(1) operator table: every binary operator x every (lhs,rhs) over 23 operand expressions {0,1,2,10,(0-3),'', 'a','b','2','10','x1','010','0x10','1_0','-5','+5',' 5','1e1',true,false,match,matchLength,an unset variable} and every unary operator x every operand, restricted to cells the documented typing accepts, each evaluated on four match texts ('12', 'k', '010' and a text starting with a 2-byte character); results observed through a transform's replacement (values) and through if/predicate (booleans); divisor 0 excluded (C09); " +
+		Rule: "(1) operator table: every binary operator x every (lhs,rhs) over 23 operand expressions {0,1,2,10,(0-3),'', 'a','b','2','10','x1','010','0x10','1_0','-5','+5',' 5','1e1',true,false,match,matchLength,an unset variable} and every unary operator x every operand, restricted to cells the documented typing accepts, each evaluated on four match texts ('12', 'k', '010' and a text starting with a 2-byte character); results observed through a transform's replacement (values) and through if/predicate (booleans); every expression reading the unset variable also after three kinds of preceding statements; divisor 0 excluded (C09); " +
 			"(2) trees: every expression tree with <= 2 binary operators over leaves {2,3,'a',true,match} and with 3 operators over {2,'a',true} (thorough: plus 3) in every shape and operator assignment the typing accepts, rendered with minimal and with full parentheses: both must parse to the same tree and evaluate to the reference value; " +
 			"oracle: an independent evaluator written from the two documented tables; non-trivial = distinct (expression,text) evaluations whose operands have different types or whose tree has >= 2 operators",
 		Assume: []string{"== / != vs < > <= >= relative precedence is not fixed by the documentation: trees mixing the two groups are excluded"},
@@ -40,11 +40,26 @@ var binOps = []string{"+", "-", "*", "/", "%", "==", "!=", "<", ">", "<=", ">=",
 // c11Observe compiles a transform (and a predicate for booleans) around the
 // expression and returns what the implementation computes, as a string.
 func c11Observe(c *Ctx, e *PE, t PT, exprSrc string, text string) (string, bool) {
+	got, ok := c11ObserveWith(c, e, t, exprSrc, text, "")
+	if ok && strings.Contains(exprSrc, "unset") {
+		// a name that was never set is the empty string wherever it is read: also after other
+		// statements have left a number, a boolean or a string behind, and inside an `if`
+		for _, pre := range []string{"set zn to 5 ", "set zb to 1 == 1 set zs to 'q' ", "if matchLength >= 0 then set zn to 2 * 3 end "} {
+			g2, ok2 := c11ObserveWith(c, e, t, exprSrc, text, pre)
+			if ok2 && g2 != got {
+				return g2, true // reported by the caller against the documented value
+			}
+		}
+	}
+	return got, ok
+}
+
+func c11ObserveWith(c *Ctx, e *PE, t PT, exprSrc string, text string, pre string) (string, bool) {
 	var src string
 	if t == TBool {
-		src = "set f to transform if " + exprSrc + " then return 'T' end return 'F' end\nreplace all at least 1 any with f"
+		src = "set f to transform " + pre + "if " + exprSrc + " then return 'T' end return 'F' end\nreplace all at least 1 any with f"
 	} else {
-		src = "set f to transform return " + exprSrc + " end\nreplace all at least 1 any with f"
+		src = "set f to transform " + pre + "return " + exprSrc + " end\nreplace all at least 1 any with f"
 	}
 	v, err, pi := compileSafe(src)
 	if pi != nil || err != nil {
@@ -59,7 +74,7 @@ func c11Observe(c *Ctx, e *PE, t PT, exprSrc string, text string) (string, bool)
 	got := ms[0].Replacement.GetValueOrDefault("")
 	if t == TBool {
 		// the same boolean must decide a predicate
-		psrc := "set p to pattern at least 1 any begin return " + exprSrc + " end\nfind all p"
+		psrc := "set p to pattern at least 1 any begin " + pre + "return " + exprSrc + " end\nfind all p"
 		pv, err, pi := compileSafe(psrc)
 		if pi != nil || err != nil {
 			c.Violation("REJECTED predicate", fmt.Sprintf("well-typed predicate rejected: %q: %v %v", psrc, err, pi), map[string]any{"kind": "compile", "src": psrc, "want": "accepted"})
